@@ -445,6 +445,35 @@ func generate(repo string, m Module) (string, []string) {
 				fmt.Fprintf(&b, "-- %s %s %s\ndef %s : List (Rate × Rate) := %s\n", s.File, s.Func, s.Sel, s.Name, body)
 				return
 			}
+			if s.Ret == "assigned" {
+				// left-hand sides assigned in the function, in source order, plus the number of if-statements
+				f, err := parse(repo, s.File)
+				if err != nil {
+					panic(trErr{err.Error()})
+				}
+				fd := findFunc(f, s.Func)
+				if fd == nil {
+					panic(trErr{"function " + s.Func + " not found in " + s.File})
+				}
+				var rows []string
+				ast.Inspect(fd.Body, func(n ast.Node) bool {
+					if as, ok := n.(*ast.AssignStmt); ok && as.Tok == token.ASSIGN {
+						for i, l := range as.Lhs {
+							rhs := ""
+							if i < len(as.Rhs) {
+								rhs = exprString(as.Rhs[i])
+								if len(rhs) > 60 {
+									rhs = rhs[:60]
+								}
+							}
+							rows = append(rows, fmt.Sprintf("(%s, %s)", strconv.Quote(exprString(l)), strconv.Quote(rhs)))
+						}
+					}
+					return true
+				})
+				fmt.Fprintf(&b, "-- %s %s: assignments in source order\ndef %s : List (String × String) := [%s]\ndef %sIfs : Nat := %d\n", s.File, s.Func, s.Name, strings.Join(rows, ", "), s.Name, len(ifConds(fd)))
+				return
+			}
 			if strings.HasPrefix(s.Ret, "calls:") {
 				f, err := parse(repo, s.File)
 				if err != nil {
